@@ -199,7 +199,7 @@ func forEachCorpusText(c *core.Ctx, opt corpusOpt, f func(family, text string) b
 	// every construct as parent x every compound construct as child x every child position (two-level trees),
 	// children written in parentheses
 	{
-		children := []string{"x => 1", "(x, y) => 1", "func() { 1 }", "if a { 1 }", "if a { 1 } else { 2 }", "for a { 1 }", "-a", "!a", "++a", "a++", "f(1)", "a[1]", "a.k", "a[1:2]", "a[1:]",
+		children := []string{"[a:]", "[1, a:]", "a[1:][2:]", "x => 1", "(x, y) => 1", "func() { 1 }", "if a { 1 }", "if a { 1 } else { 2 }", "for a { 1 }", "-a", "!a", "++a", "a++", "f(1)", "a[1]", "a.k", "a[1:2]", "a[1:]",
 			"[1, 2]", "{1:2}", "len(a)", "quote(a)", "macro(x) { 1 }", "1", "a", `"s"`}
 		for _, op := range gen.AllInfix {
 			children = append(children, "a "+op+" b")
